@@ -46,6 +46,8 @@ def check(chk, fx):
     from .. import primrules
     primrules.prims(chk, fx, "UTIL")
     primrules.prims(chk, fx, "GAPI2")
+    from .. import gramrules
+    gramrules.check(chk, fx)          # the pattern grammar: which patterns parse at all
 
 
 def _optional_paths(chk, f, rule, name):
